@@ -5,4 +5,4 @@
   msp430_text_rejected_classes, arch_reading, table_no_shadow, table_core_rows, table_core_names, table_dis_kinds
 -/
 import NakenVerif.Riscv.RoundTrip
-import NakenVerif.Msp430.RoundTrip
+import NakenVerif.Msp430.Fixpoint
